@@ -245,7 +245,7 @@ func cmdCheck(args []string) int {
 				defer f.Close()
 				cfg.queryLog = f
 			}
-			rep := runOne(prog, &cfg, r, *workers, *verbose)
+			rep := runOne(prog, &cfg, r, *workers, *verbose, seed)
 			rep.Bounds = r.Bounds
 			if scaleNote != "" {
 				rep.Bounds += " [" + scaleNote + "]"
@@ -363,8 +363,9 @@ func firstLine(s string) string {
 	return s
 }
 
-func runOne(prog *Program, cfg *CheckConfig, r *RunEntry, workers int, verbose bool) *RunReport {
+func runOne(prog *Program, cfg *CheckConfig, r *RunEntry, workers int, verbose bool, seed int64) *RunReport {
 	e := newEngine(cfg, prog)
+	e.seed = seed
 	if cfg.BudgetS > 0 {
 		e.deadline = time.Now().Add(time.Duration(cfg.BudgetS) * time.Second)
 	}
